@@ -402,8 +402,11 @@ Fixpoint build_chunks (cur : dict) (l : list item) : res fmtstr :=
       bind (build_chunks cur r) (fun cs => Ok (mkChunk x a :: cs)))
   end.
 
+(* '\x1b[' in s or '\x9b' in s *)
+Definition needs_parse (s : str) : bool := contains_esc_lb s || existsb (N.eqb 155) s.
+
 Definition from_str (s : str) : res fmtstr :=
-  if contains_esc_lb s then
+  if needs_parse s then
     match parse s with
     | Raise ValueError => Ok [mkChunk (remove_ansi s) no_atts]
     | Raise e => Raise e
